@@ -98,6 +98,8 @@ type state struct {
 	delays    [6]int64
 	sockets   int
 	openSocks int
+	lastX1    *StreamConn
+	lastX2    *StreamConn
 }
 
 //go:norace
@@ -522,8 +524,6 @@ func (c *UDPConn) Write(b []byte) (int, error) {
 	return c.send(b, c.remote)
 }
 
-var dgramSeq int
-
 //go:norace
 func (c *UDPConn) send(b []byte, addr *UDPAddr) (int, error) {
 	if len(b) > 65507 {
@@ -689,6 +689,7 @@ type StreamConn struct {
 	id            int
 	peer          *StreamConn
 	blockedR      int
+	forcePlan     int // -1 = chosen per Write from the choice stream
 }
 
 // TCPConn is the simulated *net.TCPConn.
@@ -717,9 +718,9 @@ func newPair(network string, a, b *TCPAddr) (*StreamConn, *StreamConn) {
 	p1 := &pipe{window: s.Window, cutAfter: -1}
 	p2 := &pipe{window: s.Window, cutAfter: -1}
 	s.connSeq++
-	c1 := &StreamConn{in: p1, out: p2, local: a, remote: b, rdl: -1, wdl: -1, network: network, id: s.connSeq}
+	c1 := &StreamConn{in: p1, out: p2, local: a, remote: b, rdl: -1, wdl: -1, network: network, id: s.connSeq, forcePlan: -1}
 	s.connSeq++
-	c2 := &StreamConn{in: p2, out: p1, local: b, remote: a, rdl: -1, wdl: -1, network: network, id: s.connSeq}
+	c2 := &StreamConn{in: p2, out: p1, local: b, remote: a, rdl: -1, wdl: -1, network: network, id: s.connSeq, forcePlan: -1}
 	c1.peer, c2.peer = c2, c1
 	s.openSocks += 2
 	return c1, c2
@@ -801,7 +802,7 @@ func (p *pipe) schedule(sg *seg, delay int64) {
 		at = p.lastAt
 	}
 	p.lastAt = at
-	rt.W.At(at, sg)
+	rt.W.At(at, sg).Chain = uintptr(unsafe.Pointer(p))
 }
 
 //go:norace
@@ -818,7 +819,9 @@ func (c *StreamConn) Write(b []byte) (int, error) {
 	}
 	// segmentation plan for this Write
 	plan := 0
-	if !rt.W.Quiet && total > 1 {
+	if c.forcePlan >= 0 {
+		plan = c.forcePlan
+	} else if !rt.W.Quiet && total > 1 {
 		plan = rt.Choose(6, rt.KSeg)
 		if plan != 0 {
 			rt.Probe(rt.PSegmented)
@@ -864,7 +867,7 @@ func (c *StreamConn) Write(b []byte) (int, error) {
 		k := total - n
 		switch plan {
 		case 1: // byte by byte (bounded), then the rest
-			if n < 64 {
+			if n < 64 || c.forcePlan == 1 {
 				k = 1
 			}
 		case 2: // first bytes singly (header split), rest whole
@@ -908,7 +911,7 @@ func (c *StreamConn) Write(b []byte) (int, error) {
 				p.cutAfter -= k
 			}
 			d := int64(0)
-			if !rt.W.Quiet {
+			if !rt.W.Quiet && c.forcePlan < 0 {
 				d = s.delays[rt.Choose(4, rt.KDelay)]
 			}
 			p.schedule(sg, d)
@@ -1002,6 +1005,11 @@ func CutAfter(cn Conn, k int, kind int) {
 //
 //go:norace
 func CutPeerAfter(cn Conn, k int, kind int) { CutAfter(cn.(*StreamConn).peer, k, kind) }
+
+// ForceSegmentation fixes the segmentation plan of every Write on cn (0 = whole, 1 = byte by byte, -1 = from the choice stream).
+//
+//go:norace
+func ForceSegmentation(cn Conn, plan int) { cn.(*StreamConn).forcePlan = plan }
 
 // SetWindow bounds the bytes in flight + unread towards cn's peer.
 //
@@ -1349,6 +1357,7 @@ func dialStream(network, address string) (Conn, error) {
 		}
 		remote := &TCPAddr{IP: net.ParseIP(h), Port: port}
 		c1, c2 := newPair(network, local, remote)
+		s.lastX1, s.lastX2 = c1, c2
 		s.xw = &xwait{key: key, c: c2, next: s.xw}
 		rt.Seq()
 		return c1, nil
@@ -1424,6 +1433,17 @@ type Dialer struct {
 
 //go:norace
 func (d *Dialer) Dial(network, address string) (Conn, error) { return Dial(network, address) }
+
+// LastCrossover returns the two ends of the most recent crossover connection (first dialer's end first).
+//
+//go:norace
+func LastCrossover() (Conn, Conn) {
+	s := st()
+	if s.lastX1 == nil {
+		return nil, nil
+	}
+	return s.lastX1, s.lastX2
+}
 
 // OpenSockets reports sockets created and still open in this run (leak probe).
 //
